@@ -48,8 +48,9 @@ public:
         NDSize ndsize(N);
         const size_t *ma_shape = value.shape();
         std::transform(ma_shape, ma_shape + N, ndsize.data(),
-                [](NDSize::const_reference val) {
-                    return static_cast<T>(val);
+                [](size_t val) {
+                    // an extent is a size, not an element: do not cast it to the element type
+                    return static_cast<NDSize::value_type>(val);
                 });
         return ndsize;
     }
